@@ -6,7 +6,7 @@
     multifit: its float capacity search is modelled bit-exactly (Model/Multifit.v, binary64 as dyadic rationals); it may return fewer bins, never more.
     ilp: the decoding of a solver answer is a partition (Properties/C17); judged per input here.
     Statements only; proofs in Proofs/{Greedy,KK,CG,DP,CBLDM,SNP}Proofs.v. *)
-From Prtpy Require Import Base.Prelude Model.Binner Model.Objectives Model.Greedy Model.KK Model.CG Model.DP Model.CBLDM Model.SNP Spec.Partition Proofs.GreedyProofs Proofs.KKProofs Proofs.CGProofs Proofs.DPProofs Proofs.CBLDMProofs Proofs.SNPProofs Model.Multifit Proofs.MultifitProofs Proofs.RNPProofs.
+From Prtpy Require Import Base.Prelude Model.Binner Model.Objectives Model.Greedy Model.KK Model.CG Model.DP Model.CBLDM Model.SNP Spec.Partition Proofs.GreedyProofs Proofs.KKProofs Proofs.CGProofs Proofs.DPProofs Proofs.CBLDMProofs Proofs.SNPProofs Model.Multifit Proofs.MultifitProofs Proofs.RNPProofs Model.Balanced Proofs.BalancedProofs.
 
 (** greedy / LPT *)
 Theorem C01_greedy_partition :
@@ -21,6 +21,13 @@ Theorem C01_roundrobin_partition :
   (1 <= k)%nat -> is_partition valueof k items (roundrobin valueof true k items).
 Proof. exact @roundrobin_partition. Qed.
 Print Assumptions C01_roundrobin_partition.
+
+(** bidirectional balanced (ABCCBA) dealing, balanced.py *)
+Theorem C01_bidirectional_balanced_partition :
+  forall (A : Type) (valueof : A -> Z) (k : nat) (items : list A),
+  (1 <= k)%nat -> is_partition valueof k items (bidirectional_balanced valueof true k items).
+Proof. exact @bidirectional_balanced_partition. Qed.
+Print Assumptions C01_bidirectional_balanced_partition.
 
 (** Karmarkar-Karp *)
 Theorem C01_kk_partition :
